@@ -2,7 +2,7 @@
    Nothing here mentions a generated definition; compiled with the scripts in the scratch build directory. *)
 From Coq Require Import List NArith ZArith QArith Bool Lia Lqa.
 Import ListNotations.
-From FP Require Import Lin Blocks BlocksProofs PathEnc PathEncProofs PathEncGiven PyRt PyLin.
+From FP Require Import Lin LinEquiv Blocks BlocksProofs PathEnc PathEncProofs PathEncGiven PyRt PyLin.
 Local Open Scope Q_scope.
 
 (* a loop whose body emits rows: what the rows emitted so far say, iteration by iteration.  J: what stays true of the state. *)
@@ -169,3 +169,11 @@ Proof.
 Qed.
 Lemma map_pair_id : forall (A B : Type) (l : list (A * B)), map (fun '(c0, c1) => (c0, c1)) l = l.
 Proof. intros A B l. rewrite <- (map_id l) at 2. apply map_ext. intros [a b]. reflexivity. Qed.
+
+(* ---------------------------------------------------------------- examples: the same LP, whatever the order / orientation of the rows *)
+(* decided by the verified checker LinEquiv.milp_equiv_b (milp_equiv_sound: same satisfying assignments) *)
+Definition same_lp (cs : list col) (rs : list row) (cs' : list col) (rs' : list row) : bool :=
+  milp_equiv_b {| cols := cs; rows := rs; obj := []; maximize := false |} {| cols := cs'; rows := rs'; obj := []; maximize := false |}.
+Lemma same_lp_sound : forall cs rs cs' rs', same_lp cs rs cs' rs' = true ->
+  forall a, (Forall (sat_col a) cs /\ Forall (sat_row a) rs) <-> (Forall (sat_col a) cs' /\ Forall (sat_row a) rs').
+Proof. intros cs rs cs' rs' H a. exact (proj1 (milp_equiv_sound _ _ H) a). Qed.
